@@ -81,7 +81,7 @@ def main():
             conc = any(c.get("concrete") for c in r["checks"].values())
             alarm = any(c.get("exit") for c in r["checks"].values())
             print("%-12s applies=%s %s%s" % (r["name"], r.get("applies"), "CONCRETE" if conc else ("alarm-no-input" if alarm else "MISSED"),
-                                             "" if conc or not r["before_concrete"] else "   <-- REGRESSION"), flush=True)
+                                             "" if conc or not r["before_concrete"] or not r.get("applies") else "   <-- REGRESSION"), flush=True)
             if "--write" in a and r.get("applies"):
                 p = os.path.join(VERIF, "seeded", r["name"], "meta.json")
                 m = json.load(open(p))
@@ -90,7 +90,8 @@ def main():
     json.dump(results, open(os.path.join(ROOT, "results.json"), "w"), indent=1)
     for i in range(j):
         shutil.rmtree(os.path.join(ROOT, "verif-%d" % i), ignore_errors=True)
-    reg = [r["name"] for r in results if r["before_concrete"] and not any(c.get("concrete") for c in r["checks"].values())]
+    # a patch that no longer applies (a later fix: commit rewrote its context) cannot be re-run: not a regression
+    reg = [r["name"] for r in results if r.get("applies") and r["before_concrete"] and not any(c.get("concrete") for c in r["checks"].values())]
     print("seeds: %d, concrete now: %d, regressions: %s" % (len(results), sum(any(c.get("concrete") for c in r["checks"].values()) for r in results), reg))
     return 1 if reg else 0
 
